@@ -30,7 +30,9 @@ def run(rep, tier):
     rep.rule("R14.4", "KMCCalculator::Promotetime: dt = -ln(u)/k with u = 1 - uniform[0,1)")
     rep.rule("R14.5", "selection tree: every node flagged isOnLastLevel has both leaves assigned; inner nodes combine the two smallest and store h1 left / h2 right; "
                       "probability shifting, descent and leaf choice all use 'p > threshold -> left'")
-    units = [front.repo("xtp/src/libxtp/" + u) for u in ("rate_engine.cc", "gnode.cc", "kmccalculator.cc")]
+    rep.rule("R14.6", "QMPair persistence keeps the per-carrier tables: the record field WriteData fills from M.getValue(X) is the field ReadData passes to "
+                      "M.setValue(., X), for M in {lambda0_, Jeff2_} and all four carrier kinds (the rate engine reads Jeff2 and lambda0 by carrier kind)")
+    units = [front.repo("xtp/src/libxtp/" + u) for u in ("rate_engine.cc", "gnode.cc", "kmccalculator.cc", "qmpair.cc")]
     F = Facts(front.export(units))
     rep.units = units
     rep.trusted.append("sympy exact algebra")
@@ -344,6 +346,35 @@ def run(rep, tier):
             break
     rep.check(okm, "R14.5", "orientation|thresholds", "threshold of a node = cumulative probability of its right part (last level: minus the left leaf)",
               "moveProbabilitiesFromRightSubtreesOneLevelUp: " + whym, mv.loc(), sample=True)
+    # ---------------------------------------------------------------- R14.6
+    wd = F.one(X + "QMPair::WriteData")
+    rd = F.one(X + "QMPair::ReadData")
+    rep.analysed(wd)
+    rep.analysed(rd)
+    rec_w = wd.j["params"][0]["name"]
+    rec_r = rd.j["params"][0]["name"]
+    fw_ = Fold(wd, inline=False).run()
+    fr_ = Fold(rd, inline=False, record_calls=r"setValue$").run()
+    written = {}          # (member, carrier) -> record field
+    for e in fw_.events:
+        if e["kind"] != "store" or e.get("guard") or not e["target"].startswith(rec_w + "."):
+            continue
+        v = e["value"]
+        if getattr(v, "func", None) is not None and str(v.func) == "getValue" and len(v.args) == 2:
+            written.setdefault((str(v.args[0]), str(v.args[1]).split("::")[-1]), []).append(e["target"][len(rec_w) + 1:])
+    readback = {}
+    for e in fr_.events:
+        if e["kind"] != "call" or not e["callee"].endswith("setValue") or len(e["args"]) != 2:
+            continue
+        a0 = str(e["args"][0])
+        readback.setdefault((str(e["obj"]), str(e["args"][1]).split("::")[-1]), []).append(
+            (a0[len(rec_r) + 1:] if a0.startswith(rec_r + ".") else a0, bool(e.get("guard"))))
+    rep.floor("R14.6", len(written), 8, "per-carrier values written by QMPair::WriteData")
+    for key in sorted(set(written) | set(readback)):
+        w_, r_ = written.get(key, []), readback.get(key, [])
+        ok = len(w_) == 1 and len(r_) == 1 and not r_[0][1] and r_[0][0] == w_[0]
+        rep.check(ok, "R14.6", "carrier-table|%s|%s" % key, "field written from %s.getValue(%s) == field read into %s.setValue(., %s)" % (key[0], key[1], key[0], key[1]),
+                  "QMPair::WriteData stores %s(%s) in record field(s) %s but QMPair::ReadData restores it from %s" % (key[0], key[1], w_, [x[0] for x in r_]), rd.loc())
     rep.assumptions += ["that the thresholds partition [0,1] proportionally to the rates is a property of the tree-construction dynamics (priority queue order): not decided",
                         "the sign convention of the field term: the code has dG = (E1-E2) + q R.F and k12/k21 = exp(dG/kT); R14.3 checks antisymmetry under exchange of the pair",
                         "uniformity of the random number generator (exponential waiting-time distribution)"]
